@@ -11,7 +11,9 @@ def NoCrash (cfg : Cfg) : Prop :=
 
 /-- The decision table of `handle_data` in the first-request phase: which outcome, under
     which (mutually exclusive, exhaustive) condition, with which effect on the client buffer,
-    the selected plugin and the return value. -/
+    the selected plugin and the return value.  Since 84c574d a served request whose plugin
+    returned False hands the bytes that followed it in the same segment (`leftover`) to the
+    plugin's `on_client_data` within the same call. -/
 def Spec (cfg : Cfg) (st : St) (data : Bytes) (res : St × Outcome × Bool) : Prop :=
   let st' := res.1
   let ret := res.2.2
@@ -22,10 +24,14 @@ def Spec (cfg : Cfg) (st : St) (data : Bytes) (res : St × Outcome × Bool) : Pr
       ret = false ∧ st'.buffer = st.buffer ∧ st'.plugin = st.plugin ∧ st'.escaped = st.escaped
   | .served pid td =>
     -- a plugin was selected for the request's protocol and its on_request_complete returned
-    ∃ rq q, Px.Parser.parse cfg.pcfg st.request data = .ok rq ∧ rq.state = .complete ∧ st'.request = rq ∧
+    ∃ rq q, Px.Parser.parse cfg.pcfg st.request data = .ok rq ∧ rq.state = .complete ∧
+      st'.request.state = .complete ∧
       handlerProtocol rq ≠ .unknown ∧ discover cfg.plugins (handlerProtocol rq).num = some pid ∧
       cfg.onComplete pid rq = .ret q td ∧
-      ret = td ∧ st'.plugin = some pid ∧ st'.buffer = st.buffer ++ q ∧ st'.escaped = st.escaped
+      ret = td ∧ st'.plugin = some pid ∧ st'.escaped = st.escaped ∧
+      (((td = true ∨ leftover rq = none) ∧ st'.request = rq ∧ st'.buffer = st.buffer ++ q ∧ st'.calls = st.calls) ∨
+       (∃ rem q2 t2, td = false ∧ leftover rq = some rem ∧ cfg.onClientData pid st.calls rem = .ret q2 t2 ∧
+          st'.request = { rq with buffer := none } ∧ st'.buffer = st.buffer ++ q ++ q2 ∧ st'.calls = st.calls + 1))
   | .reject why hq =>
     -- teardown requested; the handler itself queued `hq`
     ret = true ∧ st'.escaped = st.escaped ∧
@@ -43,12 +49,15 @@ def Spec (cfg : Cfg) (st : St) (data : Bytes) (res : St × Outcome × Bool) : Pr
          hq = [cfg.badRequest] ∧ st'.buffer = st.buffer ++ [cfg.badRequest] ∧ st'.plugin = st.plugin
      | .pluginRaised pid =>
        ∃ rq q resp, Px.Parser.parse cfg.pcfg st.request data = .ok rq ∧ rq.state = .complete ∧
-         discover cfg.plugins (handlerProtocol rq).num = some pid ∧
-         cfg.onComplete pid rq = .raise q resp ∧ hq = respQueue resp ∧
-         st'.buffer = st.buffer ++ q ++ hq ∧ st'.plugin = some pid)
+         discover cfg.plugins (handlerProtocol rq).num = some pid ∧ hq = respQueue resp ∧ st'.plugin = some pid ∧
+         ((cfg.onComplete pid rq = .raise q resp ∧ st'.buffer = st.buffer ++ q ++ hq) ∨
+          (∃ q1 rem, cfg.onComplete pid rq = .ret q1 false ∧ leftover rq = some rem ∧
+             cfg.onClientData pid st.calls rem = .raise q resp ∧ st'.buffer = st.buffer ++ q1 ++ q ++ hq)))
   | .escaped pid =>
-    ∃ rq q, Px.Parser.parse cfg.pcfg st.request data = .ok rq ∧ cfg.onComplete pid rq = .crash q ∧
-      st'.buffer = st.buffer ++ q ∧ st'.escaped = true
+    ∃ rq q, Px.Parser.parse cfg.pcfg st.request data = .ok rq ∧ st'.escaped = true ∧
+      ((cfg.onComplete pid rq = .crash q ∧ st'.buffer = st.buffer ++ q) ∨
+       (∃ q1 rem, cfg.onComplete pid rq = .ret q1 false ∧ leftover rq = some rem ∧
+          cfg.onClientData pid st.calls rem = .crash q ∧ st'.buffer = st.buffer ++ q1 ++ q))
   | .data _ => False
   | .ignored => False
 
@@ -70,13 +79,66 @@ theorem parseFirst_spec (cfg : Cfg) (st : St) (data : Bytes) : Spec cfg st data 
         | some pid =>
           simp only
           cases ho : cfg.onComplete pid rq with
-          | ret q td => simp [afterPlugin, Spec, hc, hu, hd, ho, hp]
+          | ret q td =>
+            cases td with
+            | true =>
+              simp only [afterPlugin, Spec]
+              exact ⟨rq, q, hp, hc, hc, hu, hd, ho, (by first | rfl | trivial), (by first | rfl | trivial), (by first | rfl | trivial), Or.inl ⟨Or.inl (by first | rfl | trivial), (by first | rfl | trivial), (by first | rfl | trivial), (by first | rfl | trivial)⟩⟩
+            | false =>
+              cases hl : leftover rq with
+              | none =>
+                simp only [afterPlugin, Spec]
+                exact ⟨rq, q, hp, hc, hc, hu, hd, ho, (by first | rfl | trivial), (by first | rfl | trivial), (by first | rfl | trivial), Or.inl ⟨Or.inr hl, (by first | rfl | trivial), (by first | rfl | trivial), (by first | rfl | trivial)⟩⟩
+              | some rem =>
+                simp only
+                cases h2 : cfg.onClientData pid st.calls rem with
+                | ret q2 t2 =>
+                  simp only [afterPlugin, Spec]
+                  exact ⟨rq, q, hp, hc, hc, hu, hd, ho, (by first | rfl | trivial), (by first | rfl | trivial), (by first | rfl | trivial),
+                    Or.inr ⟨rem, q2, t2, (by first | rfl | trivial), hl, h2, (by first | rfl | trivial), (by first | rfl | trivial), (by first | rfl | trivial)⟩⟩
+                | raise q2 resp =>
+                  simp only [afterPlugin, Spec]
+                  exact ⟨(by first | rfl | trivial), (by first | rfl | trivial), rq, q2, resp, hp, hc, hd, (by first | rfl | trivial), (by first | rfl | trivial), Or.inr ⟨q, rem, ho, hl, h2, (by first | rfl | trivial)⟩⟩
+                | crash q2 =>
+                  simp only [afterPlugin, Spec]
+                  exact ⟨rq, q2, hp, (by first | rfl | trivial), Or.inr ⟨q, rem, ho, hl, h2, (by first | rfl | trivial)⟩⟩
           | raise q resp =>
-            simp [afterPlugin, Spec, hc, hd, ho, hp]
-            exact ⟨q, resp, ⟨rfl, rfl⟩, rfl, rfl⟩
-          | crash q => simp [afterPlugin, Spec, ho, hp]
+            simp only [afterPlugin, Spec]
+            exact ⟨(by first | rfl | trivial), (by first | rfl | trivial), rq, q, resp, hp, hc, hd, (by first | rfl | trivial), (by first | rfl | trivial), Or.inl ⟨ho, (by first | rfl | trivial)⟩⟩
+          | crash q =>
+            simp only [afterPlugin, Spec]
+            exact ⟨rq, q, hp, (by first | rfl | trivial), Or.inl ⟨ho, (by first | rfl | trivial)⟩⟩
     · have hc' : (rq.state != Px.Parser.PState.complete) = true := by simpa using hc
       simp [hc', Spec, hc, hp]
+
+/-- the first-request phase never touches the flush / teardown flags (that is `tick`'s job) -/
+theorem parseFirst_flags (cfg : Cfg) (st : St) (data : Bytes) :
+    (parseFirst cfg st data).1.mustFlush = st.mustFlush ∧ (parseFirst cfg st data).1.teardown = st.teardown := by
+  unfold parseFirst
+  cases Px.Parser.parse cfg.pcfg st.request data with
+  | error e => exact ⟨rfl, rfl⟩
+  | ok rq =>
+    simp only
+    split
+    · exact ⟨rfl, rfl⟩
+    · split
+      · exact ⟨rfl, rfl⟩
+      · cases discover cfg.plugins (handlerProtocol rq).num with
+        | none => exact ⟨rfl, rfl⟩
+        | some pid =>
+          simp only
+          cases cfg.onComplete pid rq with
+          | ret q td =>
+            cases td with
+            | true => exact ⟨rfl, rfl⟩
+            | false =>
+              cases leftover rq with
+              | none => exact ⟨rfl, rfl⟩
+              | some rem =>
+                simp only
+                cases cfg.onClientData pid st.calls rem <;> exact ⟨rfl, rfl⟩
+          | raise q resp => exact ⟨rfl, rfl⟩
+          | crash q => exact ⟨rfl, rfl⟩
 
 theorem handleData_first (cfg : Cfg) (st : St) (data : Bytes) (h : st.request.state ≠ .complete) :
     handleData cfg st data = parseFirst cfg st data := by
@@ -241,8 +303,16 @@ theorem run_firstShape (cfg : Cfg) (segs : List Bytes) (st : St)
     have hesc : st.escaped = false := by
       simp only [reading, Bool.and_eq_true, Bool.not_eq_true'] at hr
       exact hr.1.2
-    generalize hres : handleData cfg st x = res at hspec
+    have hfl := parseFirst_flags cfg st x
+    rw [← handleData_first cfg st x hc] at hfl
+    generalize hres : handleData cfg st x = res at hspec hfl
     obtain ⟨st', o, ret⟩ := res
+    have hreading : st'.escaped = st.escaped → reading st' = true := by
+      intro he
+      simp only [reading, readInterest, Bool.and_eq_true, Bool.not_eq_true'] at hr ⊢
+      simp only at hfl
+      rw [hfl.1, hfl.2, he]
+      exact hr
     cases o with
     | wait =>
       simp only [Spec] at hspec
@@ -250,30 +320,10 @@ theorem run_firstShape (cfg : Cfg) (segs : List Bytes) (st : St)
       have ht := tick_continues cfg st x (by rw [hres]; exact hret) (by rw [hres]; simp only; rw [he, hesc])
       rw [ht, hres]
       show FirstShape (run cfg st' xs).2
-      apply ih
-      · rw [hrq]; exact hnc
-      · -- reading flags: `parseFirst`'s wait branch only replaces the request
-        have : st' = { st with request := st'.request } := by
-          have h1 := hres
-          rw [handleData_first cfg st x hc] at h1
-          unfold parseFirst at h1
-          split at h1
-          · simp at h1
-          · next rq' _ =>
-            simp only at h1
-            split at h1
-            · simp only [Prod.mk.injEq] at h1; rw [← h1.1]
-            · split at h1
-              · simp at h1
-              · split at h1
-                · simp at h1
-                · next pid _ =>
-                  cases hoc : cfg.onComplete pid rq' <;> simp [afterPlugin, hoc] at h1
-        rw [this]
-        simpa [reading, readInterest] using hr
+      exact ih st' (by rw [hrq]; exact hnc) (hreading he)
     | served pid td =>
       simp only [Spec] at hspec
-      obtain ⟨rq, q, _, hcomp, hrq, _, _, _, hret, hplug, _, he⟩ := hspec
+      obtain ⟨rq, q, _, _, hcomp, _, _, _, hret, hplug, he, _⟩ := hspec
       show if td = true then Closed _ else DataShape pid _
       by_cases htd : td = true
       · simp only [htd, if_true]
@@ -285,28 +335,7 @@ theorem run_firstShape (cfg : Cfg) (segs : List Bytes) (st : St)
         have ht := tick_continues cfg st x (by rw [hres]; simp only; rw [hret, htd']) (by rw [hres]; simp only; rw [he, hesc])
         rw [ht, hres]
         show DataShape pid (run cfg st' xs).2
-        apply run_dataShape cfg pid xs st' (by rw [hrq]; exact hcomp) hplug
-        -- reading flags are untouched by the served branch
-        have h1 := hres
-        rw [handleData_first cfg st x hc] at h1
-        have hflags : st'.mustFlush = st.mustFlush ∧ st'.teardown = st.teardown := by
-          unfold parseFirst at h1
-          split at h1
-          · simp at h1
-          · next rq' _ =>
-            simp only at h1
-            split at h1
-            · simp at h1
-            · split at h1
-              · simp at h1
-              · split at h1
-                · simp at h1
-                · next pid' _ =>
-                  cases hoc : cfg.onComplete pid' rq' <;> simp [afterPlugin, hoc] at h1
-                  rw [← h1.1]; exact ⟨rfl, rfl⟩
-        simp only [reading, readInterest, Bool.and_eq_true, Bool.not_eq_true'] at hr ⊢
-        rw [hflags.1, hflags.2, he, hesc]
-        exact ⟨⟨hr.1.1, rfl⟩, hr.2⟩
+        exact run_dataShape cfg pid xs st' hcomp hplug (hreading he)
     | reject why hq =>
       simp only [Spec] at hspec
       have hs := tick_stops cfg st x (Or.inl (by rw [hres]; exact hspec.1))
@@ -315,7 +344,7 @@ theorem run_firstShape (cfg : Cfg) (segs : List Bytes) (st : St)
       exact closed_map_none xs
     | escaped pid =>
       simp only [Spec] at hspec
-      obtain ⟨_, _, _, _, _, he⟩ := hspec
+      obtain ⟨_, _, _, he, _⟩ := hspec
       have hs := tick_stops cfg st x (Or.inr (by rw [hres]; exact he))
       show Closed _
       rw [run_not_reading cfg _ xs hs]
